@@ -24,7 +24,9 @@ CLAIMED["C01"] = (
     "Decides protocol obligations that are necessary for the invalidation closure to be complete (every backward edge marked or buffered, buffered marks "
     "drained after the barrier into the same batch, Single/Unordered arms symmetric, stored order == wired order, dependencies cleared before re-execution, "
     "propagate before submit, Hit only at the caller's epoch, Cleaned only on equal fingerprints, the compared fingerprint is the fingerprint of the value that is stored, "
-    "unordered groups fenced by unsafe). It does NOT decide that "
+    "unordered groups fenced by unsafe; edge roles (key = callee, member = this node); monotone repair accumulators; firewall-set composition at both sibling sites; inherited repair strictness; "
+    "no truncating adaptor on a fan-out; callee set and callee order updated together; firewall-set comparison exactly for non-firewall callees; cancelled chunk means recompute; "
+    "firewalls repaired first for User/RepairFirewall callers; de-duplication set cleared per session). It does NOT decide that "
     "incremental values equal from-scratch values.",
     "Trusted: rustc nightly MIR construction; the frozen anchor table in engine/qbv/rules/C01.py; executors are pure.")
 
@@ -63,7 +65,8 @@ CLAIMED["C09"] = (
     "Decides: the batch's `newly recorded` bool is the cache's `updated` flag at all 6 write sites; pin count raised exactly under `updated`; negative entry on "
     "remove-vacant; physical removal only at pin 0; miss-fill only in the Vacant arm; commit precedes un-pin notifications; un-pinned keys are exactly the "
     "drained keys; staged set operations carry the batch epoch and are replayed sorted by (epoch, issue sequence); no order-sensitive fold iterates an unordered "
-    "collection. Not decided: read-your-writes under all races.",
+    "collection; per-batch coalescing keeps the latest operation; both write families serialised and notified; a staging snapshot applies deferred messages first; "
+    "fetch_entry overlays additions and removals; the staging pin counter is raised under `updated`. Not decided: read-your-writes under all races.",
     "Trusted: rustc nightly MIR; TinyLFU::entry runs under the bucket lock; C16.a for eviction.")
 CLAIMED["C10"] = (
     "control-dependence on `epoch == expected`, who-may-assign rules on WriteBatch::{active,epoch}, def-use through the pipeline tasks, join-order dominance, signature/impl-table checks",
@@ -102,7 +105,7 @@ CLAIMED["C13"] = (
     "framing rules (length before repetition, discriminant before alternation) and order-independence rules over every StableHash MIR body; forbidden-input who-may-call rule; float/integer/seeding def-use rules",
     "Decides: every hashing loop is length-prefixed and every variant alternation discriminant-prefixed; for all unordered collections the outer hasher is untouched "
     "inside the iteration, element hashes are combined only by integer wrapping_add and hashed once after the loop; no address/RandomState/capacity/type_name/clock/"
-    "thread-id input; NaN normalised, integers little-endian at the right width, seeded builder feeds only the seed, sub_hash copies the outer state. Not decided: collision resistance.",
+    "thread-id input and no slice-level hashing of a ring buffer's halves (layout observers only iterated); NaN normalised, integers little-endian at the right width, seeded builder feeds only the seed, sub_hash copies the outer state. Not decided: collision resistance.",
     "Trusted: rustc nightly MIR; mem::Discriminant representation; BTree iteration order.")
 
 CLAIMED["C14"] = (
